@@ -85,6 +85,10 @@ class JobBoundMonitor(Monitor):
             reason = str(body.get('spawnerr', ''))
             if 'not received in time' in reason:
                 self.flags.add('job-ended-by-timeout')
+                # the command ended (given up): whatever is reported in progress afterwards is another job, e.g. the
+                # same stop planned again by a repeated conciliation that waits for the copy it still lists as STOPPING
+                kind = 'stopping' if int(body['state']) == 0 else 'starting'
+                self.last_request[(inst.idx, inst.incarnation, kind)] = self._counter(inst)
             if not reason:
                 self.findings.append(('forced-state-without-reason', f't={inst.world.now} {inst.nick} forced '
                                       f"{body['group']}:{body['name']} to {body['state']} with an empty reason"))
